@@ -42,7 +42,11 @@ pub fn parse_grid_iterator<'a, 'b: 'a, R: Read>(
 ) -> Result<RowIterator<'a, 'b, R>, Error> {
     let (grid, rows_parser) = parse_grid_content(parser)?;
 
-    Ok(RowIterator { grid, rows_parser })
+    Ok(RowIterator {
+        grid,
+        rows_parser,
+        failed: false,
+    })
 }
 
 /// Parse a Zinc [Grid](crate::val::Grid) with a lazy row parser
@@ -310,16 +314,23 @@ impl<'a, 'b: 'a, R: Read> RowParser<'a, 'b, R> {
 }
 
 /// Iterator for [Grid](crate::val::Grid) rows that uses lazy parsing.
+///
+/// The iterator ends after the first error: what follows a row that could
+/// not be read is not a row boundary any more.
 pub struct RowIterator<'a, 'b: 'a, R: Read> {
     grid: Grid,
     rows_parser: RowParser<'a, 'b, R>,
+    failed: bool,
 }
 
 impl<'a, 'b: 'a, R: Read> Iterator for RowIterator<'a, 'b, R> {
     type Item = Result<Dict, Error>;
 
     fn next(&mut self) -> Option<Self::Item> {
-        if !self.rows_parser.is_done() {
+        if self.failed {
+            return None;
+        }
+        let item = if !self.rows_parser.is_done() {
             match self.rows_parser.consume_end() {
                 Ok(end) => {
                     if end || self.rows_parser.is_done() {
@@ -332,7 +343,9 @@ impl<'a, 'b: 'a, R: Read> Iterator for RowIterator<'a, 'b, R> {
             }
         } else {
             None
-        }
+        };
+        self.failed = matches!(item, Some(Err(_)));
+        item
     }
 }
 
